@@ -122,6 +122,7 @@ type Stats struct {
 	Stubs        map[string]int
 	Assumptions  map[string]int
 	MaxDepth     int
+	Fallbacks, Fallbacks2 int
 }
 
 type Exec struct {
@@ -154,6 +155,11 @@ type Exec struct {
 	unsatMemo map[uint32]*PCNode
 	symAddr bool
 	cur *State
+	unresolved int
+	hardNext bool
+	noCvc5 bool
+	alt *Solver
+	msolver *Solver
 	progress bool
 }
 
@@ -172,13 +178,23 @@ func NewExec(prog *ssa.Program, solverKind string, timeoutMs int) (*Exec, error)
 		params: map[string]int{}, violSeen: map[string]int{}, unwind: 200, maxSteps: 2000000, maxPaths: 1000000, maxDepth: 200,
 		allocCap: 65536, mapOrders: true, unsatMemo: map[uint32]*PCNode{}}
 	ex.resetStats()
+	ex.msolver = s
+	if os.Getenv("VCHECK_NOALT") == "" {
+		ex.alt, err = NewSolver(ts, solverKind, timeoutMs, nil)
+		if err != nil {
+			return nil, err
+		}
+		ex.alt.resetMode = true
+		s.setTimeout(400)
+		ex.noCvc5 = os.Getenv("VCHECK_NOCVC5") != ""
+	}
 	ex.progress = os.Getenv("VCHECK_PROGRESS") != ""
 	if v := os.Getenv("VCHECK_SLOW"); v != "" {
 		ms, _ := strconv.Atoi(v)
 		s.SlowThreshold = time.Duration(ms) * time.Millisecond
 		s.SlowLog = func(d time.Duration, r Result) {
 			site := "?"
-			if ex.cur != nil {
+			if ex.cur != nil && len(ex.cur.frames) > 0 {
 				site = ex.site(ex.cur) + " in " + ex.cur.top().fn.Name()
 			}
 			fmt.Fprintf(os.Stderr, "SLOW %v %s at %s\n", d.Round(time.Millisecond), r, site)
@@ -333,12 +349,72 @@ func (ex *Exec) feasible(st *State, c *Term) bool {
 	if n, ok := ex.unsatMemo[c.id]; ok && isAncestor(n, st.pc) {
 		return false
 	}
-	r := ex.solver.Check(st.pc, c)
-	ex.solver.EndModel()
+	r := ex.sat(st.pc, c)
+	ex.endModel()
 	if r == Unsat {
 		ex.unsatMemo[c.id] = st.pc
 	}
 	return r != Unsat
+}
+
+// sat decides pc /\ extra: first with the incremental solver under a short timeout, then from
+// scratch with the reset-mode solver, finally (verdict only) with cvc5's integer encoding.
+func (ex *Exec) sat(pc *PCNode, extra *Term) Result {
+	ex.msolver = ex.solver
+	if ex.hardNext && ex.alt != nil {
+		// content-equality obligations: skip the incremental attempt, it almost always times out
+		ex.hardNext = false
+	} else {
+		r := ex.solver.Check(pc, extra)
+		if r != Unknown || ex.alt == nil {
+			if r == Unknown {
+				ex.unresolved++
+			}
+			return r
+		}
+		ex.solver.EndModel()
+	}
+	ex.stats.Fallbacks++
+	// tier 2 (verdict only): cvc5 with the integer encoding of bit-vector arithmetic; very fast on
+	// the offset/length arithmetic that dominates the hard queries, which are mostly unsat
+	if !ex.noCvc5 {
+		script := ex.alt.Standalone(pc, extra, "ALL")
+		if oneShot(script, 8*time.Second, "cvc5", "--solve-bv-as-int=sum") == Unsat {
+			ex.stats.Fallbacks2++
+			return Unsat
+		}
+	}
+	// tier 3: z3 from scratch (non-incremental strategy), provides models
+	ex.msolver = ex.alt
+	r := ex.alt.Check(pc, extra)
+	if r == Unknown {
+		ex.unresolved++
+	}
+	return r
+}
+
+func (ex *Exec) Close() {
+	ex.solver.Close()
+	if ex.alt != nil {
+		ex.alt.Close()
+	}
+}
+
+// solver statistics over both tiers
+func (ex *Exec) solverCounts() (q, sat, unsat, unknown int, t time.Duration) {
+	q, sat, unsat, t = ex.solver.NQueries, ex.solver.NSat, ex.solver.NUnsat, ex.solver.Time
+	if ex.alt != nil {
+		q += ex.alt.NQueries
+		sat += ex.alt.NSat
+		unsat += ex.alt.NUnsat + ex.stats.Fallbacks2
+		t += ex.alt.Time
+	}
+	unknown = ex.unresolved // queries no tier could decide
+	return
+}
+
+func (ex *Exec) endModel() {
+	ex.solver.EndModel()
 }
 
 // implies reports whether the path condition entails c.
@@ -435,16 +511,16 @@ func (ex *Exec) concretize(st *State, t *Term, limit int, what string) uint64 {
 	var vals []uint64
 	excl := ex.ts.True
 	for len(vals) <= limit {
-		r := ex.solver.Check(st.pc, excl)
+		r := ex.sat(st.pc, excl)
 		if r != Sat {
-			ex.solver.EndModel()
+			ex.endModel()
 			if r == Unknown {
 				panic(pathEnd{"truncated", "concretize: solver unknown for " + what})
 			}
 			break
 		}
-		v, ok := ex.solver.Eval(t)
-		ex.solver.EndModel()
+		v, ok := ex.msolver.Eval(t)
+		ex.endModel()
 		if !ok {
 			panic(pathEnd{"truncated", "concretize: no model value for " + what})
 		}
@@ -491,13 +567,13 @@ func (ex *Exec) check(st *State, bad *Term, kind, msg string) {
 		}
 		return
 	}
-	r := ex.solver.Check(st.pc, bad)
+	r := ex.sat(st.pc, bad)
 	switch r {
 	case Sat:
 		ex.report(st, kind, msg)
-		ex.solver.EndModel()
+		ex.endModel()
 	case Unknown:
-		ex.solver.EndModel()
+		ex.endModel()
 		ex.stats.Undischarged[kind+" "+msg+" @ "+ex.site(st)]++
 	case Unsat:
 		ex.unsatMemo[bad.id] = st.pc
@@ -508,8 +584,8 @@ func (ex *Exec) check(st *State, bad *Term, kind, msg string) {
 	}
 	ex.addPC(st, ex.ts.BNot(bad))
 	if r == Sat {
-		rr := ex.solver.Check(st.pc, nil)
-		ex.solver.EndModel()
+		rr := ex.sat(st.pc, nil)
+		ex.endModel()
 		if rr == Unsat {
 			panic(pathEnd{"violation", msg})
 		}
@@ -570,7 +646,7 @@ func (ex *Exec) modelDraws(st *State) []DrawVal {
 	var out []DrawVal
 	for _, d := range st.draws {
 		dv := DrawVal{Name: d.Name, Kind: d.Kind}
-		v, _ := ex.solver.Eval(d.T)
+		v, _ := ex.msolver.Eval(d.T)
 		if d.Kind == "int" {
 			dv.Val = v
 			if d.Signed {
@@ -584,16 +660,16 @@ func (ex *Exec) modelDraws(st *State) []DrawVal {
 			}
 			dv.Bytes = make([]byte, n)
 			for i := uint64(0); i < n; i++ {
-				b, _ := ex.solver.Eval(ex.ts.Select(d.Arr, ex.ts.Const(64, i)))
+				b, _ := ex.msolver.Eval(ex.ts.Select(d.Arr, ex.ts.Const(64, i)))
 				dv.Bytes[i] = byte(b)
 			}
 			if v > n {
 				// sparse positions mentioned in formulas
 				full := map[uint64]byte{}
 				for _, t := range ex.ts.tab {
-					if t.Op == OSelect && t.Arr == d.Arr && ex.solver.defined[t.id] {
-						ix, ok1 := ex.solver.Eval(t.A)
-						bv, ok2 := ex.solver.Eval(t)
+					if t.Op == OSelect && t.Arr == d.Arr && ex.msolver.defined[t.id] {
+						ix, ok1 := ex.msolver.Eval(t.A)
+						bv, ok2 := ex.msolver.Eval(t)
 						if ok1 && ok2 && ix < v && ix >= n {
 							full[ix] = byte(bv)
 						}
@@ -787,13 +863,13 @@ func (ex *Exec) Explore(st0 *State, fn *ssa.Function, args []Value) {
 }
 
 func (ex *Exec) addSample(st *State) {
-	r := ex.solver.Check(st.pc, nil)
+	r := ex.sat(st.pc, nil)
 	if r != Sat {
-		ex.solver.EndModel()
+		ex.endModel()
 		return
 	}
 	dv := ex.modelDraws(st)
-	ex.solver.EndModel()
+	ex.endModel()
 	m := map[string]interface{}{}
 	for _, d := range dv {
 		if d.Kind == "int" {
